@@ -112,7 +112,50 @@ def judge_reads(ctx, sess, facts, case, reads):
         sess.reset()          # do not let a kept half keypress leak into the next history
 
 
+def judge_late(ctx, sess, case):
+    """`first` (two ordinary keys, then the start of a keypress) is read into Input's buffer by
+    one request; the rest of that keypress has arrived by the time decoding gets to it: the keys
+    are those of the whole byte string"""
+    from curtsies import events
+    km = keysengine.modes()[sess.mode]
+    first, rest = case["first"], case["rest"]
+    sig = ("C03e2e-late", sess.encoding, sess.mode, sess.pt, first, rest)
+    try:
+        want, left = drive_partial(events.get_key, first + rest, sess.encoding, km)
+    except Exception:
+        return
+    try:
+        if not sess.pty.feed(first):
+            raise TimeoutError
+        got = []
+        e = sess.inp.send(0)
+        if isinstance(e, events.PasteEvent):
+            got.extend(e.events)
+        elif e is not None:
+            got.append(e)
+        got.extend(sess.read_all(rest))
+    except TimeoutError:
+        ctx.inconclusive_because("pty did not deliver bytes within 5 s")
+        sess.reset()
+        return
+    except Exception as ex:  # noqa
+        ctx.judge(False, case, sig, "C03:input-differs-from-decoder", want, repr(ex))
+        sess.reset()
+        return
+    ctx.judge(got == want, case, sig, "C03:sequence-completed-meanwhile-broken-up", want, got, nontrivial=True)
+    ctx.count("e2e_late_completions")
+    if got != want or left:
+        sess.reset()
+
+
 def run_case(ctx, case):
+    if case.get("kind") == "e2e-late":
+        sess = Session(case["encoding"], case["mode"], case.get("paste_threshold"))
+        try:
+            judge_late(ctx, sess, case)
+        finally:
+            sess.close()
+        return
     facts = Facts(case["encoding"])
     sess = Session(case["encoding"], case["mode"], case.get("paste_threshold"))
     try:
@@ -152,6 +195,11 @@ def run(ctx):
             for _ in range(40 if ctx.quick else 5000):
                 todo.append([b"".join(units_for(facts, rng) for _ in range(rng.randint(1, 5)))
                              for _ in range(rng.randint(1, 3))])
+            if pt is None:
+                for T in rng.sample([t for t in tabs if len(t) > 1], 12 if ctx.quick else 200):
+                    k = rng.randint(1, len(T) - 1)
+                    judge_late(ctx, sess, {"kind": "e2e-late", "encoding": enc, "mode": mode, "paste_threshold": pt,
+                                           "first": b"ab" + T[:k], "rest": T[k:] + rng.choice([b"", b"z"])})
             for reads in todo:
                 reads = [r for r in reads if r]
                 if not reads:
